@@ -1771,6 +1771,15 @@ def pattern_mul_32(context, tree, c0, c1):
     return dst
 
 
+@isa.pattern("reg16", "MULI16(reg16, reg16)", size=12)
+@isa.pattern("reg16", "MULU16(reg16, reg16)", size=12)
+def pattern_mul_16(context, tree, c0, c1):
+    """16 bits multiplication, calculated in 32 bits"""
+    a = pattern_i16_to_i32(context, tree, c0)
+    b = pattern_i16_to_i32(context, tree, c1)
+    return pattern_i32toi16(context, tree, pattern_mul_32(context, tree, a, b))
+
+
 @isa.pattern("reg64", "DIVI64(reg64, reg64)", size=14)
 def pattern_div_i64(context, tree, c0, c1):
     context.move(rax, c0)
@@ -1918,6 +1927,36 @@ def pattern_div_u16(context, tree, c0, c1):
     context.emit(defu2)
     dst = context.new_reg(Register16)
     context.move(dst, ax)
+    return dst
+
+
+@isa.pattern("reg16", "REMI16(reg16, reg16)", size=14)
+def pattern_rem_i16(context, tree, c0, c1):
+    context.move(ax, c0)
+    context.emit(Cwd())  # Sign extend ax into dx
+    context.emit(Idiv16(c1))
+    defu2 = RegisterUseDef()
+    defu2.add_use(ax)
+    defu2.add_use(dx)
+    defu2.add_def(dx)
+    context.emit(defu2)
+    dst = context.new_reg(Register16)
+    context.move(dst, dx)
+    return dst
+
+
+@isa.pattern("reg16", "REMU16(reg16, reg16)", size=14)
+def pattern_rem_u16(context, tree, c0, c1):
+    context.move(ax, c0)
+    context.emit(MovImm16(dx, 0))
+    context.emit(Div16(c1))
+    defu2 = RegisterUseDef()
+    defu2.add_use(ax)
+    defu2.add_use(dx)
+    defu2.add_def(dx)
+    context.emit(defu2)
+    dst = context.new_reg(Register16)
+    context.move(dst, dx)
     return dst
 
 
